@@ -464,12 +464,12 @@ fn exec<'b>(sc: usize, b: &'b Bump, slot: &mut Option<BVec<'b, Tracked>>, held: 
 
 thread_local! {
     /// blocks a callback allocated in the arena and kept: (address, length, fill byte)
-    static KEPT: std::cell::RefCell<Vec<(usize, usize, u8)>> = const { std::cell::RefCell::new(Vec::new()) };
+    static KEPT: std::cell::RefCell<Vec<(*const u8, usize, u8)>> = const { std::cell::RefCell::new(Vec::new()) };
 }
 fn keep_block(b: &Bump, n: usize) {
     let byte = 0xC0 | (n as u8 & 0x3f);
     let s = b.alloc_slice_fill_copy(n, byte);
-    KEPT.with(|k| k.borrow_mut().push((s.as_ptr() as usize, n, byte)));
+    KEPT.with(|k| k.borrow_mut().push((s.as_ptr() as *const u8, n, byte)));
 }
 
 fn post_checks(rep: &mut Report, sc: usize, k: u64, phase: &str, slot: &Option<BVec<Tracked>>, held: &[Tracked], fired: bool) {
@@ -550,16 +550,17 @@ fn one_run(rep: &mut Report, sc: usize, keys: &[u32], extra: &[u32], fuse: Optio
     }
     // blocks the callback took from the arena before the panic are still the caller's: later requests
     // neither land on them nor change them
-    let kept: Vec<(usize, usize, u8)> = KEPT.with(|k| k.borrow().clone());
+    let kept: Vec<(*const u8, usize, u8)> = KEPT.with(|k| k.borrow().clone());
     if !kept.is_empty() {
         let later = b.alloc_slice_fill_copy(48, 0x11u8);
         let (lp, ll) = (later.as_ptr() as usize, later.len());
-        for (kp, kl, byte) in &kept {
+        for (kptr, kl, byte) in &kept {
+            let kp = &(*kptr as usize);
             if lp < kp + kl && *kp < lp + ll {
                 rep.violate("C16", format!("C16/{}/arena-handed-out-a-block-the-callback-still-owns", name), format!("[{:#x}, +{}) vs kept [{:#x}, +{}) (panic at callback #{})", lp, ll, kp, kl, k));
                 break;
             }
-            if unsafe { std::slice::from_raw_parts(*kp as *const u8, *kl) }.iter().any(|x| x != byte) {
+            if unsafe { std::slice::from_raw_parts(*kptr, *kl) }.iter().any(|x| x != byte) {
                 rep.violate("C16", format!("C16/{}/block-kept-by-the-callback-changed", name), format!("kept [{:#x}, +{}) (panic at callback #{})", kp, kl, k));
                 break;
             }
